@@ -1121,6 +1121,39 @@ def enum_small(slice_no):
                                    "top acts 1", sub(top), "top frameend"]
                             yield "\n".join(out) + "\n"
 
+def enum_small2(slice_no):
+    """A second exhaustive family (thorough tier): system A is a one-off, cleanup or revokable reactor on one or two
+    triggers with a run-0 body of at most two actions (including `with()` on itself / on B, a `SystemCommand` naming a plain
+    entity, self-revocation and self-despawn); system B is persistent with at most one action; the top level applies *two*
+    triggers in one batch. About 370 000 scenarios, cut into ENUM_SLICES slices."""
+    ALPH = ["run s0", "sysevent s0 0 %d", "broadcast 0 %d", "entevent e0 0 %d", "despawn e0", "despawn s0", "revoke t0",
+            "with r s1 bc:0", "with c s0 res:0", "run e0"]
+    bodiesA = [[]] + [[a] for a in ALPH] + [[a, b] for a in ALPH for b in ALPH]
+    bodiesB = [[]] + [[a] for a in ALPH]
+    regA = ["once 0 bc:0 eev:e0:0", "once 0 bc:0", "on c 0 bc:0 dsp:e0", "on r 0 eev:e0:0 res:0"]
+    trigB = ["bc:0", "res:0", "eev:e0:0"]
+    tops = ["broadcast 0 %d", "entevent e0 0 %d", "run s0", "resmut 0", "despawn e0"]
+    k = 0
+    for A in bodiesA:
+        for B in bodiesB:
+            for ra in regA:
+                for tb in trigB:
+                    for t1 in tops:
+                        for t2 in tops:
+                            k += 1
+                            if k % ENUM_SLICES != slice_no % ENUM_SLICES: continue
+                            pid = [0]
+                            def sub(a):
+                                if "%d" in a:
+                                    pid[0] += 1
+                                    return a % pid[0]
+                                return a
+                            out = ["def 0 2", "run %d" % len(A)] + [sub(a) for a in A] + ["run 0",
+                                   "def 0 2", "run %d" % len(B)] + [sub(b) for b in B] + ["run 0",
+                                   "top acts 4", "spawn", "insert e0 0 1", ra, "on p 1 %s" % tb,
+                                   "top acts 2", sub(t1), sub(t2), "top frameend"]
+                            yield "\n".join(out) + "\n"
+
 def generate(prof, seed):
     text = PROFILES[prof](random.Random(seed))
     return with_validity(text, random.Random(seed ^ 0x5eed))
